@@ -275,6 +275,16 @@ fn gen_wire_entries(rng: &mut Rng) -> Entries {
     }
 }
 
+/// Values of a *persisted* span: what accumulated over its creation and later records, so possibly
+/// more than the 32 one value set can carry.
+fn gen_persisted_entries(rng: &mut Rng) -> Entries {
+    if rng.chance(1, 5) {
+        (0..rng.range(33, 70)).map(|i| (format!("f{i}"), gen::val(rng, true))).collect()
+    } else {
+        gen_wire_entries(rng)
+    }
+}
+
 fn gen_event(rng: &mut Rng) -> Ev {
     match rng.below(9) {
         0 => Ev::NewCallSite { id: gen_id(rng), site: gen::site(rng, None, 8) },
@@ -333,7 +343,7 @@ impl Suite for Wire {
                 for _ in 0..rng.range(0, 5) {
                     let id = gen_id(rng);
                     if rows.iter().all(|r| r.0 != id) {
-                        rows.push((id, gen_id(rng), if rng.chance(1, 2) { Some(gen_id(rng)) } else { None }, rng.range(1, 4) as u64, gen_wire_entries(rng)));
+                        rows.push((id, gen_id(rng), if rng.chance(1, 2) { Some(gen_id(rng)) } else { None }, rng.range(1, 4) as u64, gen_persisted_entries(rng)));
                     }
                 }
                 lines.push(format!("w enc ps {}", spans_tok(&rows)));
